@@ -12,7 +12,7 @@ def check(ctx):
     check_rounding_helper(ctx, ctx.repo)
     # a plan is a function of its configuration: memoised intermediate results must be keyed by every parameter they depend on
     from ..dispatch import check_cache_keys
-    check_cache_keys(ctx, rule="R8-memo-key-complete", files=("speckit/schedulers.py", "speckit/utils.py"))
+    check_cache_keys(ctx, rule="R8-memo-key-complete", files=("speckit/schedulers.py", "speckit/utils.py", "speckit/analysis.py"))
     check_bounds_dominate(ctx)
     check_plan_validation(ctx)
     ctx.trust("L4 pigeonhole (K strictly increasing starts in [0,N-L] need K <= N-L+1)", "L15 fix-up then recompute", "E5/E6 loop summarisation")
